@@ -14,10 +14,10 @@ from .pool import pmap
 TITLES = [("a", 1), ("a", 2), ("a-1", 1), ("b", 2), ("A b", 3), ("É x", 2), ("a\nb", 1)]     # (a\nb: a setext heading over two lines)
 # target forms: "next" = (name)= before whatever follows, "quote" = before a block quote holding a titled admonition,
 # "attr" = an attribute id on a paragraph ({#name}), "dirname" = the :name: option of a titled directive
-TARGETS = [("x", "next"), ("a", "next"), ("Tt", "next"), ("w", "quote"), ("an", "attr"), ("dn", "dirname")]
+TARGETS = [("x", "next"), ("a", "next"), ("Tt", "next"), ("w", "quote"), ("Kp", "attr"), ("dn", "dirname")]
 LINKS = ([(n, "text") for n in ("a", "a-1", "a-2", "a-1-1", "b", "a-b", "x", "zz", "A", "X", "tt", "Tt", "é-x", "w", "ab")]
-         + [(n, "text") for n in ("an", "dn", "DN")]
-         + [(n, "empty") for n in ("a", "x", "zz", "b", "Tt", "a-1", "w", "é-x", "an", "dn")]
+         + [(n, "text") for n in ("Kp", "kp", "dn", "DN")]
+         + [(n, "empty") for n in ("a", "x", "zz", "b", "Tt", "a-1", "w", "é-x", "KP", "dn")]
          + [(n, "auto") for n in ("a", "x", "é-x", "zz", "w")])
 
 
